@@ -203,51 +203,58 @@ Qed.
 
 (* WHOLE PROGRAMS.  The documented normalisation of a canonical program (C02: [cprog], the image of the
    parser) is canonical again - statements of every kind, blocks, if / else-if / else chains in every
-   spelling, switch clauses, nested to any depth - so by C02_program_roundtrip the tokens of the
-   normalised tree parse to exactly the normalised tree.  PARTIAL, side conditions [dbooks]: (1) in every
-   switch the duplicate-case bookkeeping still succeeds on the normalised case tests and the control
-   stays a control ([books]); (1) is NOT always true: C03_unconditional_refuted; (2) backend / director /
-   table declarations are fixed points of the normalisation (their property values, the trailing comma of
-   a table are not composed here).  Missing towards C03_full_statement: that the tokens of the
-   normalised tree are the tokens [norm] produces (shown for single constructs and on the witnesses
-   below, not in general: the mode machine of [run]). *)
-Theorem C03_norm_keeps_canonical_partial :
+   spelling, switch statements (control, case tests, duplicate-case bookkeeping), nested to any depth,
+   UNCONDITIONALLY - so by C02_program_roundtrip the tokens of the normalised tree parse to exactly the
+   normalised tree. *)
+Theorem C03_norm_keeps_canonical :
   forall c fok,
-  (forall s nx, cstmt fok s nx -> forall fn nx', sim nx nx' -> books c fok fn s -> cstmt fok (nstmt c fn s) nx')
-  /\ (forall ss rb, cblock fok ss rb -> forall fn, allp (books c fok fn) ss -> cblock fok (map (nstmt c fn) ss) rb)
-  /\ (forall an els nx, cchain fok an els nx -> forall fn nx', sim nx nx' -> bk_elifs c fok fn an -> bk_els c fok fn els ->
+  (forall s nx, cstmt fok s nx -> forall fn nx', sim nx nx' -> cstmt fok (nstmt c fn s) nx')
+  /\ (forall ss rb, cblock fok ss rb -> forall fn, cblock fok (map (nstmt c fn) ss) rb)
+  /\ (forall an els nx, cchain fok an els nx -> forall fn nx', sim nx nx' ->
         cchain fok (map (nelif c fn) an) (nels c fn els) nx')
-  /\ (forall cs rb, ccases fok cs rb -> forall fn, bk_cases c fok fn cs -> ccases fok (map (ncase c fn) cs) rb)
-  /\ (forall ss ft nx, cbody fok ss ft nx -> forall fn, allp (books c fok fn) ss -> cbody fok (map (nstmt c fn) ss) ft nx).
+  /\ (forall cs rb, ccases fok cs rb -> forall fn, ccases fok (map (ncase c fn) cs) rb)
+  /\ (forall ss ft nx, cbody fok ss ft nx -> forall fn, cbody fok (map (nstmt c fn) ss) ft nx).
 Proof. exact norm_canonical. Qed.
 
+(* the duplicate-case bookkeeping of a switch does not see the normalisation: the parser compares case
+   tests by a label that spells every concatenation with its operator (parser fix a5b80c6; before it
+   `case "a" "b":` + `case "a" + "b":` was a program whose formatted text did not parse) *)
+Theorem C03_case_bookkeeping_unchanged :
+  forall c fn cs acc d, book (map (ncase c fn) acc) d (map (ncase c fn) cs) = book acc d cs.
+Proof. exact book_n. Qed.
+
+(* PARTIAL, side condition [dbooks]: backend / director / table declarations are fixed points of the
+   normalisation (their property values and the trailing comma of a table are not composed here).
+   Missing towards C03_full_statement: that the tokens of the normalised tree are the tokens [norm]
+   produces - shown for single constructs and on the witnesses below, not in general (the mode machine
+   of [run]). *)
 Theorem C03_program_preserves_tree_partial :
-  forall c fok ds, cprog fok ds -> allp (dbooks c fok) ds ->
+  forall c fok ds, cprog fok ds -> allp (dbooks c) ds ->
   parse_vcl fok (flat_map ystmt (vstmts (norm_vcl c (Vcl ds false)))) = POK (norm_vcl c (Vcl ds false)).
 Proof. exact program_norm_parses. Qed.
 
 (* non-vacuity: the witness program of C02 (typed sub, juxtaposition, elsif, switch, return (true), acl)
-   under a configuration where every rewrite applies; the normalised tree differs from the source tree *)
+   under a configuration where every rewrite applies; the normalised tree differs from the source tree;
+   and a switch whose case tests are concatenations in both spellings *)
 Theorem C03_program_example :
   parse_vcl (fun _ => true) (flat_map ystmt (vstmts (norm_vcl FmtExamples.ex_conf (Vcl ex_prog false))))
   = POK (norm_vcl FmtExamples.ex_conf (Vcl ex_prog false))
   /\ norm_vcl FmtExamples.ex_conf (Vcl ex_prog false) <> Vcl ex_prog false.
 Proof. exact (conj ex_prog_norm_parses ex_prog_norm_changes). Qed.
 
-(* REFUTED without the side condition: a program that parses and whose normalised tokens do not -
-   sub f { switch (x) { case "a" "b": break; case "a" + "b": break; } } : the parser's duplicate-case
-   test compares spellings, the formatter makes the two spellings equal (either option value).  The
-   witness's normalised tokens ARE the output of the token model ([ex_dup_token_model]); replayed on the
-   real code: corpus/C03/known_duplicate_case_by_concat.vcl, known finding switch-case-concat-spelling. *)
-Theorem C03_unconditional_refuted :
-  ~ (forall fok c ds, parse_vcl fok (flat_map ystmt ds) = POK (Vcl ds false) ->
-       parse_vcl fok (flat_map ystmt (vstmts (norm_vcl c (Vcl ds false)))) = POK (norm_vcl c (Vcl ds false))).
-Proof. exact unconditional_refuted. Qed.
+Theorem C03_case_concat_example :
+  forall c, parse_vcl (fun _ => true) (flat_map ystmt (vstmts (norm_vcl c (Vcl ex_cases false))))
+            = POK (norm_vcl c (Vcl ex_cases false)).
+Proof. exact ex_cases_norm_parses. Qed.
 
-Theorem C03_refutation_witness_is_model_output :
-  map to_tok (flat_map ystmt (vstmts (norm_vcl FmtTok.default_config (Vcl ex_dup false))))
-  = FmtTok.significant (FmtNorm.norm FmtTok.default_config (to_elts (flat_map ystmt ex_dup))).
-Proof. exact ex_dup_token_model. Qed.
+(* on both witnesses the tokens of the normalised TREE are exactly the significant tokens the token MODEL
+   of the formatter produces from the tokens of the source *)
+Theorem C03_witnesses_are_model_output :
+  map to_tok (flat_map ystmt (vstmts (norm_vcl ex_conf_unsorted (Vcl ex_prog false))))
+  = FmtTok.significant (FmtNorm.norm ex_conf_unsorted (to_elts (flat_map ystmt ex_prog)))
+  /\ map to_tok (flat_map ystmt (vstmts (norm_vcl FmtTok.default_config (Vcl ex_cases false))))
+     = FmtTok.significant (FmtNorm.norm FmtTok.default_config (to_elts (flat_map ystmt ex_cases))).
+Proof. exact (conj ex_prog_token_model ex_cases_token_model). Qed.
 
 (* THE FULL PROPERTY over the real parser model ([parse_vcl], Model/ParseDecl.v), the real token
    model of the formatter ([norm]) and the documented tree normalisation ([norm_vcl],
@@ -262,9 +269,7 @@ Proof. exact ex_dup_token_model. Qed.
      - elseif / elsif -> else if          C03_elseif_to_else_if_partial          (nelif, one clause)
      - return x <-> return (x)            C03_return_parenthesis_preserves_tree  (nret)
      - whole canonical programs           C03_program_preserves_tree_partial     (composition through
-       C02_program_roundtrip; side conditions [dbooks])
-   FALSE AS STATED for programs with two case tests that differ only in the spelling of a
-   concatenation: C03_unconditional_refuted (the statement below inherits this: known finding).
+       C02_program_roundtrip; side condition [dbooks]: backend / director / table unchanged)
    REMAINING:
      - that [run] threads its state so that inside an expression it IS ins_plus / del_plus (the
        decisions are bridged, the state machine of modes is not), and that `error` / `restart`
@@ -290,10 +295,11 @@ Print Assumptions C03_token_bridge.
 Print Assumptions C03_remove_to_unset_preserves_tree.
 Print Assumptions C03_elseif_to_else_if_partial.
 Print Assumptions C03_return_parenthesis_preserves_tree.
-Print Assumptions C03_norm_keeps_canonical_partial.
+Print Assumptions C03_norm_keeps_canonical.
+Print Assumptions C03_case_bookkeeping_unchanged.
+Print Assumptions C03_case_concat_example.
+Print Assumptions C03_witnesses_are_model_output.
 Print Assumptions C03_program_preserves_tree_partial.
 Print Assumptions C03_program_example.
-Print Assumptions C03_unconditional_refuted.
-Print Assumptions C03_refutation_witness_is_model_output.
 End Tree.
 
